@@ -1116,7 +1116,7 @@ func selftest() int {
 		}
 		fmt.Printf("selftest stub conformance: %d scenarios agree with taskctl.TaskRunner\n", strings.Count(string(b), "conformance "))
 	}
-	n := 14
+	n := 8
 	if s := os.Getenv("VERIF_SELFTEST_SEEDS"); s != "" {
 		n, _ = strconv.Atoi(s)
 	}
@@ -1129,7 +1129,7 @@ func selftest() int {
 	var mu sync.Mutex
 	var wg sync.WaitGroup
 	results := map[string][]res{}
-	for _, prof := range []string{"C01", "C03", "C04", "C08", "C15", "C16"} {
+	for _, prof := range []string{"C01", "C03", "C04", "C08", "C09", "C10", "C11", "C12", "C14", "C15", "C16", "C17"} {
 		for _, procs := range []string{"1", "4", "16"} {
 			for rep := 0; rep < 2; rep++ {
 				wg.Add(1)
@@ -1172,7 +1172,7 @@ func selftest() int {
 			}
 		}
 	}
-	fmt.Printf("selftest determinism: %d seeds x 6 processes (GOMAXPROCS 1/4/16, twice each), %d diverged\n", total, bad)
+	fmt.Printf("selftest determinism: %d seeds (12 profiles) x 6 processes (GOMAXPROCS 1/4/16, twice each), %d diverged\n", total, bad)
 	if bad > 0 {
 		return 2
 	}
